@@ -21,6 +21,8 @@ class TT(T):
             return self.extra
         if k == "selfdef":
             return self.extra  # e.g. Foo<T>
+        if k == "lt_cow":
+            return "Cow<%s, str>" % self.extra
         if k == "lt_str":
             return "&%s str" % self.extra
         if k == "lt_ref":
@@ -37,7 +39,7 @@ def mk(kind, args=(), extra=None):
 def src_text(t):
     """source text of a template type (may mention params / lifetimes / const names)"""
     k = t.kind
-    if k in ("param", "selfdef", "lt_str"):
+    if k in ("param", "selfdef", "lt_str", "lt_cow"):
         return TT.rust(t)
     if k == "lt_ref":
         return "&%s %s" % (t.extra, src_text(t.args[0]))
@@ -59,6 +61,8 @@ def subst(t, env, self_concrete):
         return self_concrete
     if k == "lt_str":
         return STR
+    if k == "lt_cow":
+        return T("cow_str")
     if k == "lt_ref":
         return T("ref", [subst(t.args[0], env, self_concrete)])
     if k == "constarray":
@@ -134,7 +138,8 @@ class DefGen:
             return r.choice([mk("option", [mk("box", [s])]), mk("vec", [s]), mk("option", [mk("rc", [s])]) if False else mk("vec", [s])])
         if lifetimes and c < 0.55:
             lt = r.choice(lifetimes)
-            return r.choice([mk("lt_str", extra=lt), mk("lt_ref", [self.simple()], lt), mk("vec", [mk("tuple", [U8, mk("option", [mk("lt_str", extra=lt)])])])])
+            return r.choice([mk("lt_str", extra=lt), mk("lt_ref", [self.simple()], lt), mk("vec", [mk("tuple", [U8, mk("option", [mk("lt_str", extra=lt)])])]),
+                             mk("lt_cow", extra=lt), mk("option", [mk("lt_cow", extra=lt)]), mk("lt_ref", [mk("lt_cow", extra=lt)], lt)])
         if consts and c < 0.62:
             return mk("constarray", [r.choice([U8, U16, BOOL])], r.choice(consts))
         if c < 0.70:
@@ -247,6 +252,13 @@ class DefGen:
                 f["encoded_as"] = r.choice(["<%s as HasCompact>::Type" % w, "Compact<%s>" % w])
                 self.stat("encoded_as")
             out.append(f)
+        if shape != "unit" and r.random() < 0.12 and len(out) < 6:
+            e = r.choice([U8, U16, BOOL, STRING])
+            pair = r.choice([[mk("array", [e], 4), mk("vec", [e])], [mk("vec", [e]), mk("array", [e], 2), mk("array", [e], 3)], [mk("range", [U32]), mk("rangeinc", [U32])],
+                             [mk("option", [e]), mk("result", [e, e])]])
+            for j, t in enumerate(pair):
+                out.append({"ft": t, "skip": False, "compact": False, "encoded_as": None, "rename": None, "docs": [], "name": ("s%d" % j) if shape == "named" else None})
+            self.stat("sibling_members")
         return out
 
     def has_self(self, t):
@@ -321,8 +333,8 @@ class DefGen:
         def walk(t):
             if t.kind == "param":
                 used.add(t.extra)
-            if t.kind in ("lt_str", "lt_ref"):
-                used.add(t.extra if t.kind == "lt_str" else t.extra)
+            if t.kind in ("lt_str", "lt_ref", "lt_cow"):
+                used.add(t.extra)
             if t.kind == "constarray":
                 used.add(t.extra)
             for a in t.args:
@@ -435,15 +447,20 @@ class DefGen:
         return "<%s>" % ", ".join(parts) if parts else ""
 
     def field_src(self, f, indent, pub=True):
-        s = self.docs_src(f["docs"], indent)
+        attrs = []
         if f["skip"]:
-            s += indent + "#[codec(skip)]\n"
+            attrs.append(indent + "#[codec(skip)]\n")
         if f["compact"]:
-            s += indent + "#[codec(compact)]\n"
+            attrs.append(indent + "#[codec(compact)]\n")
         if f["encoded_as"]:
-            s += indent + "#[codec(encoded_as = %s)]\n" % rust_str(f["encoded_as"])
+            attrs.append(indent + "#[codec(encoded_as = %s)]\n" % rust_str(f["encoded_as"]))
         if f["rename"] is not None:
-            s += indent + "#[scale_info(rename = %s)]\n" % rust_str(f["rename"])
+            attrs.append(indent + "#[scale_info(rename = %s)]\n" % rust_str(f["rename"]))
+        # attribute order varies; docs before, between or after the other attributes
+        self.r.shuffle(attrs)
+        docs = self.docs_src(f["docs"], indent)
+        k = self.r.randint(0, len(attrs))
+        s = "".join(attrs[:k]) + docs + "".join(attrs[k:])
         vis = "pub " if pub else ""
         if f["name"]:
             s += "%s%s%s: %s,\n" % (indent, vis, f["name"], src_text(f["ft"]))
@@ -455,6 +472,11 @@ class DefGen:
         return any(f["ft"].has_bitvec() for f in self.all_fields(d))
 
     def def_src(self, d, indent, gate_bitvec=False):
+        body = self.def_src_inner(d, indent, gate_bitvec)
+        consts = "".join("%s%s\n" % (indent, c) for c in sorted(d.get("consts_src", {}).values()))
+        return consts + body
+
+    def def_src_inner(self, d, indent, gate_bitvec=False):
         s = ""
         if gate_bitvec and self.def_has_bitvec(d):
             s += indent + '#[cfg(feature = "bit-vec")]\n'
@@ -496,12 +518,15 @@ class DefGen:
             s += "%spub enum %s%s%s {\n" % (indent, d["name"], g, w)
             for v in d["variants"]:
                 i2 = indent + "    "
-                s += self.docs_src(v["docs"], i2)
+                vattrs = []
                 if v["skip"]:
-                    s += i2 + "#[codec(skip)]\n"
+                    vattrs.append(i2 + "#[codec(skip)]\n")
                 if v["index"] is not None:
-                    s += i2 + "#[codec(index = %d)]\n" % v["index"]
-                discr = (" = %d" % v["discr"]) if v["discr"] is not None else ""
+                    vattrs.append(i2 + "#[codec(index = %d)]\n" % v["index"])
+                self.r.shuffle(vattrs)
+                k = self.r.randint(0, len(vattrs))
+                s += "".join(vattrs[:k]) + self.docs_src(v["docs"], i2) + "".join(vattrs[k:])
+                discr = (" = %s" % self.discr_expr(v["discr"], d)) if v["discr"] is not None else ""
                 if v["shape"] == "unit":
                     s += "%s%s%s,\n" % (i2, v["name"], discr)
                 elif v["shape"] == "tuple":
@@ -516,6 +541,26 @@ class DefGen:
                     s += "%s}%s,\n" % (i2, discr)
             s += indent + "}\n"
         return s
+
+    def discr_expr(self, val, d):
+        """the same discriminant value written in different ways"""
+        r = self.r
+        forms = ["%d" % val, "0x%x" % val, "(%d)" % val, "%d + 0" % val, "0b%s" % bin(val)[2:]]
+        if val > 0 and (val & (val - 1)) == 0:
+            forms.append("1 << %d" % (val.bit_length() - 1))
+        if 32 <= val < 127 and chr(val) not in "'\\" and d.get("repr_u8"):
+            forms.append("b'%s'" % chr(val))
+        if val >= 1:
+            forms.append("%d - 1 + 1" % val)
+        # a named constant defined next to the type
+        cname = "K_%s_%d" % (d["name"].replace("r#", "raw_"), val)
+        d.setdefault("consts_src", {})[cname] = "pub const %s: %s = %d;" % (cname, "u8" if d.get("repr_u8") else "isize", val)
+        forms += [cname, cname]
+        f = r.choice(forms)
+        if f != cname and cname in d["consts_src"] and not any(cname in x for x in [f]):
+            pass
+        d.setdefault("discr_forms", []).append(f)
+        return f
 
     def inst_text(self, d, env):
         path = "g::" + "::".join(d["mod"] + [d["name"]])
